@@ -24,7 +24,7 @@ import (
 	"verif/internal/model"
 )
 
-const rule = "cases: (published, offset) over boundaries {0,1,2^31-1,2^31,2^32-1} x {0,1,65535} (all 15 pairs every run) and uniform u32 x u16, carried by LeaseSet2, MetaLeaseSet and EncryptedLeaseSet encodings; Lease end dates (ms) below 2^63 incl. 9223372036854/5 (the UnixNano limit); Lease2 seconds over u32 and constructor times outside [0,2^32-1] (negative, 2^32, year 2262+, sub-second fractions); offline expiry u32; LeaseSets of 1..16 leases with arbitrary, repeated and boundary dates in random order; expiry one day before / after the start of the run for seven structure kinds. Oracle: math/big - ExpirationTime().Unix() = published+offset (up to 2^32+65534, no wrap), exact second<->millisecond conversions, NewLease2 rejects out-of-range instead of wrapping, Newest/OldestExpiration are members of the leases and bound all others, IsExpired true at now-86400 s and false at now+86400 s. Non-trivial: published+offset crosses 2^31 or 2^32, a date beyond 2^31 s, or a lease set with >= 2 distinct dates; distinct by field values."
+const rule = "cases: (published, offset) over boundaries {0,1,2^31-1,2^31,2^32-1} x {0,1,65535} (all 15 pairs every run) and uniform u32 x u16, carried by LeaseSet2, MetaLeaseSet and EncryptedLeaseSet encodings; Lease end dates (ms) below 2^63 incl. 9223372036854/5 (the UnixNano limit); Lease2 seconds over u32 and constructor times outside [0,2^32-1] (negative, 2^32, year 2262+, sub-second fractions, +-2^k +- delta up to the int64 limits, and second counts whose product with 10^3, 10^6 or 10^9 wraps modulo 2^64 into the 32-bit range); offline expiry u32; LeaseSets of 1..16 leases with arbitrary, repeated and boundary dates in random order; expiry one day before / after the start of the run for seven structure kinds. Oracle: math/big - ExpirationTime().Unix() = published+offset (up to 2^32+65534, no wrap), exact second<->millisecond conversions, NewLease2 rejects out-of-range instead of wrapping, Newest/OldestExpiration are members of the leases and bound all others, IsExpired true at now-86400 s and false at now+86400 s. Non-trivial: published+offset crosses 2^31 or 2^32, a date beyond 2^31 s, or a lease set with >= 2 distinct dates; distinct by field values."
 
 var now time.Time
 
@@ -331,7 +331,25 @@ func check(c Case, r *ev.Rec) error {
 var bPub = []uint32{0, 1, 1<<31 - 1, 1 << 31, 1<<32 - 1}
 var bOff = []uint16{0, 1, 65535}
 var bMs = []uint64{0, 1, 1<<31*1000 - 1, 1 << 31 * 1000, (1<<32 - 1) * 1000, 1 << 32 * 1000, 9223372036854, 9223372036855, 9223372036856, 1<<63 - 1, 1<<63 - 1000}
-var bSecs = []int64{-1, 0, 1, 1<<31 - 1, 1 << 31, 1<<32 - 1, 1 << 32, 1<<32 + 1, 9223372036, 9223372037, 1 << 40, -1 << 40, math.MaxInt64 / 2}
+var bSecs = []int64{-1, 0, 1, 1<<31 - 1, 1 << 31, 1<<32 - 1, 1 << 32, 1<<32 + 1, 9223372036, 9223372037, 1 << 40, -1 << 40, math.MaxInt64 / 2,
+	math.MaxInt64, math.MinInt64, math.MinInt64 + 1, 1 << 53, 1 << 61, 1 << 62, -1 << 61, -1 << 62, 1<<61 + 1700000000, 1<<62 + 5, -1<<62 + 4000000000,
+	9223372036854775, 9223372036854776, 9223372036854775807 / 1000000, 9223372036854775807/1000000 + 1, 18446744073709552, 18446744073709553}
+
+// wrapSecs returns a second count s outside [0, 2^32) for which s*mult, computed in
+// 64-bit arithmetic, wraps to j*mult - (a value below mult): a range check or a stored
+// value derived from seconds*1000, *10^6 or *10^9 then sees a small in-range number.
+func wrapSecs(mult int64, k int64, j int64, neg bool) int64 {
+	q := new(big.Int).Lsh(big.NewInt(k), 64)
+	q.Div(q, big.NewInt(mult))
+	if neg {
+		q.Neg(q)
+	}
+	q.Add(q, big.NewInt(j))
+	if !q.IsInt64() {
+		return math.MaxInt64
+	}
+	return q.Int64()
+}
 
 func genCase(t *rapid.T) Case {
 	c := Case{Kind: rapid.SampledFrom([]string{"header", "header", "lease", "lease2", "lease2", "offline", "extremes", "extremes", "expired"}).Draw(t, "kind")}
@@ -354,9 +372,21 @@ func genCase(t *rapid.T) Case {
 			c.Ms = rapid.Uint64Range(0, 1<<63-1).Draw(t, "ms")
 		}
 	case "lease2":
-		if rapid.Bool().Draw(t, "b") {
+		switch rapid.IntRange(0, 5).Draw(t, "b") {
+		case 0, 1:
 			c.Secs = rapid.SampledFrom(bSecs).Draw(t, "secs")
-		} else {
+		case 2: // +-2^k +- small
+			c.Secs = int64(1) << uint(rapid.IntRange(31, 62).Draw(t, "pow"))
+			if rapid.Bool().Draw(t, "neg") {
+				c.Secs = -c.Secs
+			}
+			c.Secs += rapid.Int64Range(-3, 4000000000).Draw(t, "delta")
+		case 3: // products that wrap into the 32-bit range
+			mult := rapid.SampledFrom([]int64{1000, 1000000, 1000000000}).Draw(t, "mult")
+			c.Secs = wrapSecs(mult, rapid.Int64Range(1, mult/2-1).Draw(t, "k"), rapid.Int64Range(1, 1<<32).Draw(t, "j"), rapid.Bool().Draw(t, "neg"))
+		case 4:
+			c.Secs = rapid.Int64().Draw(t, "secs")
+		default:
 			c.Secs = rapid.Int64Range(-1<<33, 1<<34).Draw(t, "secs")
 		}
 		c.Nanos = rapid.SampledFrom([]int64{0, 0, 1, 999999999, -1}).Draw(t, "nanos")
@@ -413,6 +443,17 @@ func TestEnumBoundaries(t *testing.T) {
 			for _, n := range []int64{0, 999999999} {
 				if err := prop.One(Case{Kind: "lease2", Secs: s, Nanos: n}); err != nil {
 					return err
+				}
+			}
+		}
+		for _, mult := range []int64{1000, 1000000, 1000000000} {
+			for _, k := range []int64{1, 2, 3, mult / 4, mult/2 - 1} {
+				for _, j := range []int64{1, 2, 1700000000, 1<<32 - 1} {
+					for _, neg := range []bool{false, true} {
+						if err := prop.One(Case{Kind: "lease2", Secs: wrapSecs(mult, k, j, neg)}); err != nil {
+							return err
+						}
+					}
 				}
 			}
 		}
